@@ -10,6 +10,7 @@ mod relations;
 mod builders;
 mod paths;
 mod merkle;
+mod roundtrip;
 mod rng;
 mod t_time_locks;
 mod t_tree_hash;
@@ -81,6 +82,7 @@ fn main() {
                     "builders_ground" => builders::replay_builders(&v["input"]),
                     "paths_ground" => paths::replay_paths(&v["input"]),
                     "merkle_ground" => merkle::replay_merkle(&v["input"]),
+                    "roundtrip_ground" => roundtrip::replay_roundtrip(&v["input"]),
                     "bls_cache_ground" => eval::replay_bls(&v["input"]),
                     "tree_hash_precomputed" => eval::replay_precomputed(&v["input"]),
                     _ => (false, "unknown eval replay".to_string()),
